@@ -9,7 +9,7 @@ import random
 import subprocess
 import json
 
-from harness import common, gen
+from harness import common, gen, imgfmt
 
 PID = "C12"
 PROGRAMS = [
@@ -29,6 +29,10 @@ PROGRAMS = [
     (["10 PRINT \"HELLO\""], {"output_dependencies": True, "procname": "prog"}),
     (["10 Z$=STRING$(3,\"A\"):LOCATE 1,2:Z=POINT(1,2)"], {"output_dependencies": True, "procname": "prog"}),
     (["10 PLAY \"C\""], {"output_dependencies": True, "procname": "hello", "default_str_storage": 48}),
+    # a name DIMensioned in one program and used without DIM in another; several string temporaries with a non-default size
+    (["10 DIM A$,B$(2),N(3)", "20 A$=\"X\":B$(1)=A$"], {"default_str_storage": 80}),
+    (["10 A$=\"Y\":B$(1)=A$:N(1)=2"], {"default_str_storage": 80, "initialize_vars": True}),
+    (["10 A$=HEX$(X)+STR$(Y)+HEX$(Z)+STR$(W):PRINT A$;X;Y"], {"default_str_storage": 80}),
 ]
 DECODES = [("hrstoppm", [], "monalisa.hrs"), ("maxtoppm", ["-br"], "eye4.max"), ("mgetoppm", [], "dragon1.mge"), ("rattoppm", [], "watrfall.rat"),
            ("cm3toppm", [], "clip1.cm3"), ("veftopng", [], "trekies.vef"), ("pixtopgm", [], "sue.pix"), ("maxtoppm", ["-newsroom"], "shamrock.art")]
@@ -43,6 +47,17 @@ def main():
     fixtures = os.path.join(common.REPO, "tests", "coco_tests", "fixtures")
     calls = [{"kind": "convert", "src": "\n".join(l), "opts": o} for l, o in PROGRAMS]
     calls += [{"kind": "decode", "tool": t, "args": a, "file": os.path.join(fixtures, f)} for t, a, f in DECODES if os.path.exists(os.path.join(fixtures, f))]
+    # two generated files per compressed format (different pictures, encodings that refer to the line above / earlier bytes):
+    # a decoder that keeps a buffer between calls shows it only on such pairs
+    gdir = os.path.join(wd, "gen")
+    os.makedirs(gdir, exist_ok=True)
+    pool = imgfmt.variants_line_compressed()[:1] + imgfmt.variants_line_compressed()[2:3] + imgfmt.variants_compressed()[:1] + imgfmt.variants_compressed()[3:]
+    for v in pool:
+        for k, f in enumerate(imgfmt.generate(rep, wd, v, 2, common.seed())):
+            path = os.path.join(gdir, "%s_%d.bin" % (v[0], k))
+            with open(path, "wb") as fh:
+                fh.write(f["data"])
+            calls.append({"kind": "decode", "tool": f["tool"], "args": f["args"], "file": path})
     kinds = ["convert" if c["kind"] == "convert" else c["tool"] for c in calls]
     n = len(calls)
     # (G) histories from the TLA+ History machine
@@ -56,8 +71,12 @@ def main():
     if not thorough:
         hists = [h for h in hists if len(h) == 1] + gen.sample(rng, [h for h in hists if len(h) == 2], 120) + \
                 [[a, b, a] for a in range(0, n, 3) for b in range(1, n, 5)]
-    deps = [k for k, c in enumerate(calls) if c["kind"] == "convert" and c["opts"].get("output_dependencies")]
-    hists += [[a, b] for a in deps for b in deps if a != b and [a, b] not in hists]
+    # all ordered pairs of conversions, and of decodes by the same tool
+    conv = [k for k, c in enumerate(calls) if c["kind"] == "convert"]
+    have = {tuple(h) for h in hists}
+    hists += [[a, b] for a in conv for b in conv if a != b and (a, b) not in have]
+    have = {tuple(h) for h in hists}
+    hists += [[a, b] for a in range(n) for b in range(n) if a != b and kinds[a] == kinds[b] and kinds[a] != "convert" and (a, b) not in have]
     rep.count("histories", len(hists))
     seeds = list(range(64)) if thorough else [0, 1, 2, 3, 4, 5, 6, 7, 99, 12345]
     # canonical results: each call alone, seed 0
